@@ -123,7 +123,7 @@ class LogRepFloat:
         return self.__add__(other)
 
     def __iadd__(self, other: ScalarLike) -> Self:
-        if other == 0:
+        if not isinstance(other, LogRepFloat) and other == 0:
             return self
         if isinstance(other, LogRepFloat):
             self.log_val = log_sum_exp(self.log_val, other.log_val)
